@@ -8,7 +8,9 @@
 (*                        s = "ret" (c's Pop returned r during this step), *)
 (*                        "parked" (blocked inside Pop) or "idle"; a burst *)
 (*                        step carries a.acts (calls issued back to back   *)
-(*                        by one goroutine) and their replies rs           *)
+(*                        by one goroutine) and their replies rs; a race   *)
+(*                        step carries a.acts issued by several goroutines *)
+(*                        released together (applied in any order)         *)
 (*   stress {...}         summary of a free-running producers / consumers  *)
 (*                        / closer run, judged at its quiescent end        *)
 (* One step = the external action, then as many Wake steps as it takes to  *)
@@ -19,10 +21,11 @@ EXTENDS QueueWake, Json, IOUtils
 TraceLog == ndJsonDeserialize(IOEnv.VERIF_TRACE)
 
 VARIABLES l, phase, rets,
-          bi      \* burst step: index of the next call of the burst (0: not in a burst)
-tvars == <<allwvars, l, phase, rets, bi>>
+          bi,     \* burst step: index of the next call of the burst (0: not in a burst)
+          pend    \* race step: indices of the calls not yet applied
+tvars == <<allwvars, l, phase, rets, bi, pend>>
 
-TraceInit == l = 1 /\ phase = "ready" /\ rets = {} /\ bi = 0 /\ WInitWith("q", 0, 0)
+TraceInit == l = 1 /\ phase = "ready" /\ rets = {} /\ bi = 0 /\ pend = {} /\ WInitWith("q", 0, 0)
 
 TReset(e) ==
   /\ phase = "ready"
@@ -32,7 +35,7 @@ TReset(e) ==
   /\ cst' = [c \in Cons |-> "idle"] /\ cany' = [c \in Cons |-> FALSE]
   /\ cres' = [c \in Cons |-> R("none", 0)]
   /\ last' = [a |-> [op |-> "init"], r |-> Ok]
-  /\ l' = l + 1 /\ UNCHANGED <<phase, rets, bi>>
+  /\ l' = l + 1 /\ UNCHANGED <<phase, rets, bi, pend>>
 
 (* the call of the step *)
 TBegin(e) ==
@@ -40,12 +43,14 @@ TBegin(e) ==
   /\ CASE e.a.op = "pop" ->
              /\ PopCall(e.a.c, e.a.any)
              /\ rets' = IF cst'[e.a.c] = "idle" THEN {e.a.c} ELSE {}
-             /\ bi' = 0
+             /\ bi' = 0 /\ pend' = {}
         [] e.a.op = "burst" ->       \* nothing has happened yet; the calls follow one by one
-             /\ rets' = {} /\ bi' = 1 /\ UNCHANGED allwvars
+             /\ rets' = {} /\ bi' = 1 /\ pend' = {} /\ UNCHANGED allwvars
+        [] e.a.op = "race" ->        \* nothing has happened yet; the calls follow in any order
+             /\ rets' = {} /\ bi' = 0 /\ pend' = 1..Len(e.a.acts) /\ UNCHANGED allwvars
         [] OTHER ->
              /\ External(e.a, e.r)
-             /\ rets' = {} /\ bi' = 0
+             /\ rets' = {} /\ bi' = 0 /\ pend' = {}
 
 (* a burst: one goroutine issues the calls e.a.acts back to back, without waiting for *)
 (* quiescence in between; notified consumers may run between any two of them          *)
@@ -53,22 +58,37 @@ TBurst(e) ==
   /\ phase = "settle" /\ e.a.op = "burst" /\ bi \in 1..Len(e.a.acts)
   /\ External(e.a.acts[bi], e.rs[bi])
   /\ bi' = bi + 1
-  /\ UNCHANGED <<l, phase, rets>>
+  /\ UNCHANGED <<l, phase, rets, pend>>
+
+(* a race: the calls e.a.acts (Pops of distinct consumers, adds, close ...) are issued by *)
+(* different goroutines released together; every call is one mutex hold, so what happened *)
+(* is SOME order of them, with notified consumers running in between: TLC searches it     *)
+TRace(e) ==
+  /\ phase = "settle" /\ e.a.op = "race"
+  /\ \E i \in pend :
+       /\ IF e.a.acts[i].op = "pop"
+          THEN /\ PopCall(e.a.acts[i].c, e.a.acts[i].any)
+               /\ rets' = IF cst'[e.a.acts[i].c] = "idle" THEN rets \cup {e.a.acts[i].c} ELSE rets
+          ELSE /\ External(e.a.acts[i], e.rs[i])
+               /\ rets' = rets
+       /\ pend' = pend \ {i}
+  /\ UNCHANGED <<l, phase, bi>>
 
 (* notified consumers run, in any order *)
 TWake ==
   /\ phase = "settle"
   /\ \E c \in Cons : Wake(c) /\ rets' = IF cst'[c] = "idle" THEN rets \cup {c} ELSE rets
-  /\ UNCHANGED <<l, phase, bi>>
+  /\ UNCHANGED <<l, phase, bi, pend>>
 
 (* quiescence: the logged picture is the stable state *)
 TEnd(e) ==
   /\ phase = "settle" /\ Stable
   /\ (e.a.op = "burst" => bi = Len(e.a.acts) + 1)
+  /\ pend = {}
   /\ \A c \in Cons :
         IF c \in rets THEN e.st[c].s = "ret" /\ e.st[c].r = cres[c]
                       ELSE e.st[c].s = cst[c]
-  /\ phase' = "ready" /\ rets' = {} /\ bi' = 0 /\ l' = l + 1
+  /\ phase' = "ready" /\ rets' = {} /\ bi' = 0 /\ pend' = {} /\ l' = l + 1
   /\ UNCHANGED allwvars
 
 (* free-running stress, judged at its quiescent end: every consumer returned *)
@@ -83,13 +103,13 @@ StressOK(e) ==
 TStress(e) ==
   /\ phase = "ready"
   /\ IF StressOK(e) THEN TRUE ELSE FALSE      \* (IF: evaluated as a plain state predicate)
-  /\ l' = l + 1 /\ UNCHANGED <<allwvars, phase, rets, bi>>
+  /\ l' = l + 1 /\ UNCHANGED <<allwvars, phase, rets, bi, pend>>
 
 TraceNext ==
   \/ /\ l <= Len(TraceLog)
      /\ LET e == TraceLog[l] IN
           CASE e.ev = "reset"  -> TReset(e)
-            [] e.ev = "step"   -> TBegin(e) \/ TBurst(e) \/ TEnd(e)
+            [] e.ev = "step"   -> TBegin(e) \/ TBurst(e) \/ TRace(e) \/ TEnd(e)
             [] e.ev = "stress" -> TStress(e)
             [] OTHER -> FALSE
   \/ TWake
